@@ -252,6 +252,17 @@ func c05Specs() []*edt.Spec {
 			Formula: map[string]func(e *edt.Env) edt.Tri{"equals-own-reduction": always},
 		},
 		{
+			// the binary unmarshaller accepts exactly what SetCanonicalBytes accepts (it IS that call)
+			Pkg: "curve/scalar", Func: "(*Scalar).UnmarshalBinary", Opaque: []string{"Scalar.SetCanonicalBytes"}, MinPaths: 1, Vars: map[string]string{},
+			Classify: func(p *edt.Path, out string, e *edt.Env) string {
+				if out == "err(Scalar.SetCanonicalBytes($data))" && len(p.Lits) == 0 {
+					return "delegates"
+				}
+				return ""
+			},
+			Formula: map[string]func(e *edt.Env) edt.Tri{"delegates": always},
+		},
+		{
 			// SetCanonicalBytes: len = 32 ∧ bit 255 clear ∧ IsCanonical
 			Pkg: "curve/scalar", Func: "(*Scalar).SetCanonicalBytes", Opaque: []string{"Scalar.IsCanonical"}, MinPaths: 3,
 			Vars:      map[string]string{"(len($in) == 32)": "len32", "(($in[31] >> 7) == 0)": "highBitClear"},
@@ -289,7 +300,7 @@ func init() {
 		dts := run.Rule("DT-S", "ScMinimalVartime returns exactly 'little-endian value < L' on every consistent abstract input, false on any other length", 5000)
 		red := run.Rule("REDUCED", "every scalar operation documented to return a reduced value packs a value that is reduced by construction (Montgomery reduction, or sums/differences of reduced values and constants below L)", 12)
 		al := run.Rule("ALIAS", "scalar operations compute the same result when receiver and operands denote one object", 12)
-		dt := run.Rule("DT-canonical", "SetCanonicalBytes accepts exactly len = 32 ∧ bit 255 clear ∧ IsCanonical; IsCanonical compares the scalar with its own reduction", 4)
+		dt := run.Rule("DT-canonical", "SetCanonicalBytes accepts exactly len = 32 ∧ bit 255 clear ∧ IsCanonical; IsCanonical compares the scalar with its own reduction; UnmarshalBinary is SetCanonicalBytes", 5)
 		for _, id := range c.Configs() {
 			p := c.Prog(id)
 			run.SetConfig(id)
